@@ -63,6 +63,15 @@ def results_through_funnel(ck, rule):
                         for st in pf.stores:
                             if isinstance(st.target, ast.Subscript) and st.path == k.value.id and const_str(st.target.slice) == "n_frac":
                                 knf = st.value
+                    elif k.arg is None and isinstance(k.value, ast.Call) and dotted(k.value.func) == "dict":
+                        # **dict(kwargs, n_frac=...) : a copy of the keyword record with the entry set
+                        for k2 in k.value.keywords:
+                            if k2.arg == "n_frac":
+                                knf = k2.value
+                    elif k.arg is None and isinstance(k.value, ast.Dict):
+                        for dk, dv in zip(k.value.keys, k.value.values):
+                            if dk is not None and const_str(dk) == "n_frac":
+                                knf = dv
                     elif k.arg == "n_frac":
                         knf = k.value
                 if kind == "ctor":
@@ -124,7 +133,24 @@ def kernel_candidates(prog, f, call):
         for n in ast.walk(f.node):
             if isinstance(n, ast.Assign) and any(isinstance(t, ast.Name) and t.id == rf.id for t in n.targets) and isinstance(n.value, ast.Name):
                 names.add(n.value.id)
-    return [f.nested[n] for n in sorted(names) if n in f.nested]
+    # path-based: what the (substituted) raw_func argument denotes on each path through the public function
+    # (covers tuple unpacking, conditional expressions and table dispatch after normalisation)
+    try:
+        for pf in fpaths(prog, f):
+            for ce in pf.calls:
+                if ce.raw is call or (getattr(ce.raw, "lineno", None) == getattr(call, "lineno", -1) and dotted(ce.raw.func) == dotted(call.func)):
+                    v = kw(ce.call, "raw_func", 1)
+                    if isinstance(v, ast.Name):
+                        names.add(v.id)
+    except Exception:
+        pass
+    out = [f.nested[n] for n in sorted(names) if n in f.nested]
+    for n in sorted(names):
+        if n not in f.nested:
+            q = "%s.%s" % (f.module, n)
+            if q in prog.funcs and prog.funcs[q] not in out:
+                out.append(prog.funcs[q])          # kernel moved to module level
+    return out
 
 
 def operand_alias(f, wrapper, call):
@@ -163,40 +189,43 @@ def kernel_typing(ck, rule, only=None, note_events=None):
                 return d
             pfs = fpaths(prog, k)
             ck.saw(k, paths=len(pfs))
+            closures = _closure_envs(prog, f, k, call, skip=set(al))
             for pf in pfs:
                 if pf.end == "raise":
                     continue
                 if pf.ret is None:
                     ck.bad(rule, k, "the kernel returns the raw result", "kernel path without return value", k.node)
                     continue
-                ret = _Rewrite().visit(ast.fix_missing_locations(_copy(pf.ret)))
-                events = []
-                ty = Typer(ops + list(al.keys()), rename=ren, events=events)
-                try:
-                    t = ty.ty(ret)
-                except Mismatch as m:
-                    ck.bad(rule, k, "operands are aligned to a common binary point before they are combined", "%s: %s" % (m.what, src(m.node)[:100] if m.node is not None else ""), pf.ret_stmt,
-                           m.detail)
-                    continue
-                except (Unknown, NotATerm) as u:
-                    ck.unsure(rule, k, "kernel body is in the scale-typing vocabulary", pf.ret_stmt, str(u))
-                    continue
-                want = Term.var("n_frac")
-                ck.saw(terms=1)
-                if t.kind != "code":
-                    ck.bad(rule, k, "the kernel returns an integer code", "returns %r" % t, pf.ret_stmt)
-                    continue
-                asg = guard_assignment(pf.guards, rename=ren)
-                same, cex = equiv(t.t.subst(asg), want.subst(asg))
-                if not same:
-                    ck.bad(rule, k, "the kernel result is scaled by 2^n_frac, the fraction length its sink stores it with",
-                           "result scaled by 2^(%s), sink expects 2^(n_frac)" % t.t.show(), pf.ret_stmt,
-                           {"meaning": "the stored value is wrong by the factor 2^(%s)" % (t.t - want).show(), "witness": witness(t.t, want)})
-                    continue
-                if k.qualname in results:
-                    events = results[k.qualname][1] + events     # events of all paths of the kernel
-                results[k.qualname] = (t, events, ret, pf)
-                ck.ok(rule, k, "%s : Code<n_frac> (operands %s)" % (k.name, ", ".join(sorted(t.ops))), pf.ret_stmt)
+                for fenv, fguards in closures:
+                    ret0 = subst(pf.ret, fenv) if fenv else pf.ret
+                    ret = _Rewrite().visit(ast.fix_missing_locations(_copy(ret0)))
+                    events = []
+                    ty = Typer(ops + list(al.keys()), rename=ren, events=events)
+                    try:
+                        t = ty.ty(ret)
+                    except Mismatch as m:
+                        ck.bad(rule, k, "operands are aligned to a common binary point before they are combined", "%s: %s" % (m.what, src(m.node)[:100] if m.node is not None else ""), pf.ret_stmt,
+                               m.detail)
+                        continue
+                    except (Unknown, NotATerm) as u:
+                        ck.unsure(rule, k, "kernel body is in the scale-typing vocabulary", pf.ret_stmt, str(u))
+                        continue
+                    want = Term.var("n_frac")
+                    ck.saw(terms=1)
+                    if t.kind != "code":
+                        ck.bad(rule, k, "the kernel returns an integer code", "returns %r" % t, pf.ret_stmt)
+                        continue
+                    asg = guard_assignment(list(pf.guards) + list(fguards), rename=ren)
+                    same, cex = equiv(t.t.subst(asg), want.subst(asg))
+                    if not same:
+                        ck.bad(rule, k, "the kernel result is scaled by 2^n_frac, the fraction length its sink stores it with",
+                               "result scaled by 2^(%s), sink expects 2^(n_frac)" % t.t.show(), pf.ret_stmt,
+                               {"meaning": "the stored value is wrong by the factor 2^(%s)" % (t.t - want).show(), "witness": witness(t.t, want)})
+                        continue
+                    if k.qualname in results:
+                        events = results[k.qualname][1] + events     # events of all paths of the kernel
+                    results[k.qualname] = (t, events, ret, pf)
+                    ck.ok(rule, k, "%s : Code<n_frac> (operands %s)" % (k.name, ", ".join(sorted(t.ops))), pf.ret_stmt)
     ck.extra["kernels_typed"] = len(results)
     if only is None and n_k < 18:
         raise AnalysisError("only %d raw kernels found (expected >= 18)" % n_k)
@@ -206,6 +235,66 @@ def kernel_typing(ck, rule, only=None, note_events=None):
 def _copy(e):
     import copy
     return copy.deepcopy(e)
+
+
+def _closure_envs(prog, f, k, call, skip=()):
+    """[(env, guards)] : what the free variables of the nested kernel k denote when the wrapper is called in f, one entry per distinct
+    binding over the paths of f reaching `call` (a kernel may read locals of the function that defines it)."""
+    if k.parent is not f:
+        return [({}, [])]
+    import builtins
+    bound = set(k.params)
+    if k.kwarg:
+        bound.add(k.kwarg)
+    for n in ast.walk(k.node):
+        if isinstance(n, ast.Name) and isinstance(n.ctx, ast.Store):
+            bound.add(n.id)
+        elif isinstance(n, ast.arg):
+            bound.add(n.arg)
+    flocals = set(f.params)
+    for n in ast.walk(f.node):
+        if isinstance(n, ast.Name) and isinstance(n.ctx, ast.Store):
+            flocals.add(n.id)
+    free = {n.id for n in ast.walk(k.node) if isinstance(n, ast.Name) and isinstance(n.ctx, ast.Load)} - bound
+    free = {n for n in free if n in flocals and n not in f.nested and not hasattr(builtins, n) and n not in skip and n not in ("x", "y")}
+    if not free:
+        return [({}, [])]
+    # a kernel parameter and an enclosing variable of the same name denote the same value only when the wrapper call forwards it under that name
+    fwd = set()
+    for pf in fpaths(prog, f):
+        for st in pf.stores:
+            if isinstance(st.target, ast.Subscript) and const_str(st.target.slice) is not None and isinstance(st.raw_value, ast.Name) \
+                    and st.raw_value.id == const_str(st.target.slice) and any(kk.arg is None and dotted(kk.value) == st.path for kk in call.keywords):
+                fwd.add(st.raw_value.id)          # kwargs['axis'] = axis ... wrapper(..., **kwargs)
+    clash = {n for n in k.params if n in flocals and n not in fwd and not (isinstance(kw(call, n), ast.Name) and kw(call, n).id == n)}
+
+    class _Outer(ast.NodeTransformer):
+        def visit_Call(self, node):
+            self.generic_visit(node)
+            if prog.is_fxp_ctor(f, node) and len(node.args) == 1 and not node.keywords and isinstance(node.args[0], ast.Name) and node.args[0].id in skip:
+                return node.args[0]               # Fxp(a) plays the operand a
+            return node
+
+        def visit_Name(self, node):
+            if node.id in clash:
+                return ast.copy_location(ast.Name(id="outer_" + node.id, ctx=node.ctx), node)
+            return node
+    import copy as _cp
+    out, seen = [], set()
+    for pf in fpaths(prog, f):
+        if pf.end != "return" or not any(ce.raw is call or getattr(ce.raw, "lineno", None) == getattr(call, "lineno", -1) for ce in pf.calls):
+            continue
+        env = {n: _Outer().visit(_cp.deepcopy(pf.env[n])) for n in free if n in pf.env}
+        used = set()
+        for v in env.values():
+            used |= {x.id for x in ast.walk(v) if isinstance(x, ast.Name)}
+        gl = [(_Outer().visit(_cp.deepcopy(g[0])),) + tuple(g[1:]) for g in pf.guards if any(isinstance(x, ast.Name) and (x.id in free or x.id in used or x.id in f.params) for x in ast.walk(g[0]))]
+        key = (tuple(sorted((n, ast.dump(v)) for n, v in env.items())), tuple((ast.dump(g[0]), g[1]) for g in gl))
+        if key in seen:
+            continue
+        seen.add(key)
+        out.append((env, gl))
+    return out or [({}, [])]
 
 
 def single_quantization(ck, rule, results, only=None):
